@@ -88,6 +88,10 @@ type opT struct {
 	Offsets   []int64   `json:"offsets"` // sweep_trunc: sizes to keep
 	Flips     [][2]int64 `json:"flips"`  // sweep_flip: (position, xor mask)
 	Kind      string    `json:"kind"`    // sweep: "toy" or "src"
+	All       bool      `json:"all"`     // sweep: every offset / every position
+	Drops     []int64   `json:"drops"`   // sweep_trunc: bytes to drop from the end
+	Fracs     []int64   `json:"fracs"`   // sweep_trunc: sizes to keep, in millionths of the file size
+	Masks     []int64   `json:"masks"`   // sweep_flip with all: xor masks tried at every position
 }
 
 type result struct {
@@ -108,6 +112,8 @@ type result struct {
 	CK         string   `json:"ck"`
 	Classes    string   `json:"classes"` // sweep: one letter per probe: m miss, s hit with the stored content, d hit with other content, p panic
 	Panics     []string `json:"panics"`
+	Ks         []int64  `json:"ks"` // sweep: the kept size (trunc) or position (flip) of every probe
+	Xs         []int64  `json:"xs"` // sweep_flip: the mask of every probe
 	Digest     string   `json:"digest"`
 	// compile
 	Err        string   `json:"err"`
@@ -399,17 +405,54 @@ func runSweep(o opT) (res result) {
 			cls = append(cls, 'd')
 		}
 	}
+	// All sizes and positions are taken relative to the file as it is NOW: its exact bytes depend on
+	// the gob type ids this process has handed out so far, so sizes must not be carried over from
+	// another process.
+	n := int64(len(orig))
+	res.Ks = []int64{}
+	res.Xs = []int64{}
 	if o.Op == "sweep_trunc" {
-		for _, k := range o.Offsets {
-			if k > int64(len(orig)) {
-				k = int64(len(orig))
+		ks := []int64{}
+		if o.All {
+			for k := int64(0); k <= n; k++ {
+				ks = append(ks, k)
 			}
+		}
+		for _, k := range o.Offsets {
+			ks = append(ks, k)
+		}
+		for _, d := range o.Drops {
+			ks = append(ks, n-d)
+		}
+		for _, f := range o.Fracs {
+			ks = append(ks, n*f/1000000)
+		}
+		for _, k := range ks {
+			if k > n {
+				k = n
+			}
+			if k < 0 {
+				k = 0
+			}
+			res.Ks = append(res.Ks, k)
 			probe(orig[:k])
 		}
 	} else {
-		for _, f := range o.Flips {
+		flips := [][2]int64{}
+		if o.All {
+			for i := int64(0); i < n; i++ {
+				for _, m := range o.Masks {
+					flips = append(flips, [2]int64{i, m})
+				}
+			}
+		}
+		flips = append(flips, o.Flips...)
+		for _, f := range flips {
 			b := append([]byte{}, orig...)
-			b[f[0]%int64(len(b))] ^= byte(f[1])
+			i := f[0] % n
+			b[i] ^= byte(f[1])
+			res.Ks = append(res.Ks, i)
+			res.Xs = append(res.Xs, f[1])
 			probe(b)
 		}
 	}
